@@ -99,6 +99,13 @@ def r2_consumers(ctx, chk, rule="C13.2"):
                                 kf = k.kfold(("res", lid, v))
                                 if kf is not None and kf.init == ("first",) and any(x == t for x in C02._sub(L.init.get(v))):
                                     seeded = True
+                if not seeded:
+                    # the same seed in library form: min([key(S[0])] + keys)
+                    for u in _terms(k):
+                        if u[0] == "call" and u[1] in ("min", "max") and len(u[2]) == 1 and any(x == t for x in C02._sub(u[2][0])):
+                            kf = k.kfold(u)
+                            if kf is not None and kf.kind == "EXT" and kf.init == ("first",) and kf.source == SELF_NEXT:
+                                seeded = True
                 if seeded:
                     chk.ok(rule, f.where(), "%s.%s: `%s` only seeds a MIN/MAX fold with the value at the first element (order-insensitive)" % (cls, m, show(t)))
                 else:
